@@ -110,8 +110,15 @@ Proof. vm_compute. reflexivity. Qed.
        itself membership-only (Module.parameters de-duplicates by id(p); the result order is the list order);
    (ii) no class of the package defines __hash__ or __eq__ (nor is a @dataclass): Tensor / Parameter / Module hash and
        compare by identity, and by no_set_iteration identity hashes only ever feed membership tests;
-   (iii) every sorted( / .sort( call has a key (currently there is no such call at all: the list is empty, the clause is
-       kept so that a keyless sort of objects appearing later breaks the proof). *)
+   (iii) every sorted( / .sort( call either has a key or orders NUMBERS (so_elems = ElemsNumeric: the argument is a comprehension /
+       display / range whose element expression is int arithmetic or a name forced to be a number by an order comparison, e.g.
+       cpu_ops.first_extremum_mask: sorted(ax + a.ndim if ax < 0 else ax for ax in axes)); a keyless sort of numbers is a
+       function of the values only.  [Changed from "every sort has a key": that was stronger than needed — the point of the
+       clause is that no OBJECTS are ordered — and false of a deterministic sort of ints.]  What ElemsNumeric assumes is written
+       at `numeric_expr` in lib/py2coq/gen_census.py: operands are builtin Python values, NumPy scalars/arrays or package objects;
+   (iv) no class of the package defines __lt__/__le__/__gt__/__ge__/__cmp__ (nor @total_ordering / dataclass(order=)), so a
+       keyless sort over Tensor / Parameter / Module objects raises TypeError (Python 3 has no default order) instead of
+       ordering them by anything. *)
 Theorem no_address_or_hash_dependence :
   (forall d, In d draws -> d_class d = AddressOrHash -> is_visual (d_file d) = false ->
      d_use d = DedupKey /\
@@ -119,10 +126,12 @@ Theorem no_address_or_hash_dependence :
      (forall u, In u set_uses -> su_file u = d_file d -> su_owner u = d_owner d -> su_var u = d_set d ->
         su_kind u = Membership \/ su_kind u = Add \/ su_kind u = Size)) /\
   hash_defs = [] /\
-  (forall s, In s sorts -> so_has_key s = true).
+  (forall s, In s sorts -> so_has_key s = true \/ so_elems s = ElemsNumeric) /\
+  order_defs = [].
 Proof.
   split; [exact (hash_rows_sound set_uses draws hash_rows_ok_all)|].
-  split; [vm_compute; reflexivity|exact (sorts_sound sorts sorts_ok_all)].
+  split; [vm_compute; reflexivity|].
+  split; [exact (sorts_sound sorts sorts_ok_all)|vm_compute; reflexivity].
 Qed.
 Goal True. idtac "ASSUMPTIONS no_address_or_hash_dependence". Abort.
 Print Assumptions no_address_or_hash_dependence.
